@@ -11,6 +11,10 @@ import MM.Model.C23
       udp   : x (no handler) | o (disabled) | k (create ok) | f (create fails)
       icmp  : x | o | f
     -> `r <msg>,<msg>,... a <none | dial:<hex> | udp:<-|ip.port> | icmp:<ip>>`
+    h … relay:<c>:<t>   the client sends <c> after it has seen the success reply, the destination sends <t>
+    -> `… t <bytes the destination received> c <bytes written to the client after the reply>`
+    j <host> <port>     -> `s <JoinHostPort text> ok <host> <port text>` | `s <text> err`   (net.SplitHostPort of it)
+    ip <4|16 bytes>     -> `text <net.IP.String()>`
 -/
 namespace MM.Engine.C23
 open MM MM.C23
@@ -67,28 +71,61 @@ structure Op where
   udp : Backend
   icmp : Backend
   input : Bytes
+  relay : Option (Bytes × Bytes) := none
 
-partial def parseOp (line : String) : Option Op :=
+def parseRelay (s : String) : Option (Bytes × Bytes) :=
+  match s.splitOn ":" with
+  | ["relay", c, t] => do pure (← bytesOfHex c, ← bytesOfHex t)
+  | _ => none
+
+def parseOp (line : String) : Option Op :=
   match tokens line with
-  | ["h", au, di, be, inp] => do
+  | "h" :: au :: di :: be :: inp :: extra => do
     let auths ← parseAuths au
     let dial ← parseDial di
     let (u, i) ← match be.toList with
       | [u, i] => some (u, i)
       | _ => none
-    pure ⟨auths, dial, ← parseBackend u, ← parseBackend i, ← bytesOfHex inp⟩
-  | ["h", au, di, be, inp, _frag] => parseOp s!"h {au} {di} {be} {inp}"   -- delivery fragmentation does not matter
+    -- `f<k>` (delivery fragmentation) does not matter to the model
+    let relay := extra.findSome? parseRelay
+    pure { auths := auths, dial := dial, udp := ← parseBackend u, icmp := ← parseBackend i, input := ← bytesOfHex inp, relay := relay }
   | _ => none
 
 def Op.env (o : Op) (cancelled : Bool) : Env :=
   ⟨o.auths, o.dial, cancelled, o.udp, o.icmp, [127, 0, 0, 1]⟩
 
+/-- The relay phase of `handleConnect` (`relay`): after the success reply each side's bytes reach
+    the other side unchanged. Only a successful CONNECT has one. -/
+def relayOut (o : Op) (r : Result) : String :=
+  match o.relay with
+  | none => ""
+  | some (c, t) =>
+    match r.action, o.dial with
+    | .dial _, .ok _ _ => s!" t {hexTok c} c {hexTok t}"
+    | _, _ => " t - c -"
+
 def step (line : String) : String :=
+  match tokens line with
+  | ["j", h, p] =>
+    match bytesOfHex h, p.toNat? with
+    | some host, some port =>
+      let s := joinHostPort host port
+      match splitHostPort s with
+      | .ok a b => s!"s {hexTok s} ok {hexTok a} {hexTok b}"
+      | .err => s!"s {hexTok s} err"
+    | _, _ => "bad-op"
+  | ["ip", b] =>
+    match bytesOfHex b with
+    | some ip => "text " ++ hexTok (if ip.length = 4 then renderV4 ip else renderV6 ip)
+    | none => "bad-op"
+  | _ =>
   match parseOp line with
   | none => "bad-op"
   | some o =>
-    let a := showResult (handle (o.env false) o.input)
-    let b := showResult (handle (o.env true) o.input)
+    let ra := handle (o.env false) o.input
+    let rb := handle (o.env true) o.input
+    let a := showResult ra ++ relayOut o ra
+    let b := showResult rb ++ relayOut o rb
     if a = b then a else s!"anyof {a} | {b}"
 
 /-! ### spec: the statement of C23 evaluated on the implementation's own answer -/
@@ -143,8 +180,21 @@ def lastCode (rs : List Bytes) : Option UInt8 := rs.getLast?.map replyCode
 def spec (line : String) (implOut : String) : String :=
   if implOut.startsWith "panic" || implOut.startsWith "crash" then "fail crashed"
   else if implOut.startsWith "hang" then "fail hang"
-  else match parseOp line, tokens implOut with
+  else if line.startsWith "j " || line.startsWith "ip " then "ok"
+  else match parseOp line, (tokens implOut).take 4 with
     | some o, ["r", rs, "a", act] =>
+      -- relay phase: what each side received must be what the other side sent
+      let relayBad : Bool := match o.relay, (tokens implOut).drop 4 with
+        | some (c, t), ["t", gt, "c", gc] =>
+          let dialOk : Bool := match o.dial with
+            | .ok _ _ => true
+            | _ => false
+          if act.startsWith "dial" && dialOk then
+            !(gt == hexTok c && gc == hexTok t)
+          else !(gt == "-" && gc == "-")
+        | some _, _ => true
+        | none, _ => false
+      if relayBad then "fail relay-bytes" else
       match parseReplies rs with
       | none => "fail unparsable-reply"
       | some replies =>
